@@ -1,6 +1,7 @@
 CONSTANTS
   EB = 20
   StaleP = 200
+  BT = 1
   MaxOps = 14
   MaxMonths = 6
   GenHist = TRUE
